@@ -41,7 +41,15 @@ def specOk (ws : List W) (reads : Array Json) : Bool × String := Id.run do
   let mut i := 0
   for x in ws do
     match x.w with
-    | none => return (true, "")      -- raw frames: judged by the model comparison only
+    | none =>
+      -- raw frames: a frame that carries neither data nor an error must be rejected by the reader
+      -- (not read as a message, not as a success); other raw frames: the model comparison only
+      match readAll 1 x.raw with
+      | [.noData] =>
+        let r := reads[i]?.getD Json.null
+        if jstr r "t" != "nodata" then return (false, "frame-with-neither-data-nor-error-not-rejected")
+        return (true, "")
+      | _ => return (true, "")
     | some w =>
       let r := reads[i]?.getD Json.null
       let good := match expected w with
